@@ -7,7 +7,7 @@ THEOREMS = ["c08_self_or_admin", "c08_admin_only", "c08_other_tokens_need_u2f", 
             "c08_only_target_changes", "c08_history", "c08_cache", "c08_cache_window",
             "c08_cache_granted_has_source", "c08_login_subject", "c08_case_variant_is_other_user",
             "c08_roles_admin_justified", "c08_roles_admin_has_source", "c08_roles_never_promoted",
-            "c08_authorize_is_gate_extra", "c08_gate_and_authorize", "c08_gate_and_authorize_may_act"]
+            "c08_authorize_is_gate_extra", "c08_gate_and_authorize", "c08_gate_and_authorize_may_act", "c08_obs_cell_is_spec"]
 
 TRUSTED = [
     "checkAuth runs in front of the model: the model starts from the authenticated (user, level) of a valid session cookie or a verified keymaster client-certificate chain (Model/Auth.v is the model of checkAuth, lemma authenticate_is_check_auth relates the two; c08_gate_and_authorize composes the C06 gate model with the handler tests, route by route)",
@@ -32,6 +32,28 @@ def corr(ctx, res, name, label, idxfile=None):
             first = lines[i]
     ctx.broken.append(("correspondence", name, {"label": label, "first_mismatch": first, "indices": (mism or "")[:400]}))
 
+def model_oracle(ctx, res, name, idxfile):
+    """round 2: mismatching cells whose OBSERVATION violates the property's own predicate (cell_violating,
+    Proofs/AuthzObs.v) become oracle hits, so that the VIOLATION line carries the failing input"""
+    viol = res.get(name)
+    if viol is None or viol == "[]":
+        return
+    lines = []
+    if os.path.exists(os.path.join(ctx.work, idxfile)):
+        lines = open(os.path.join(ctx.work, idxfile)).read().split("\n")
+    for m in re.findall(r"\d+", viol.split(":")[0])[:20]:
+        i = int(m)
+        line = lines[i] if i < len(lines) else "case %d" % i
+        op = re.search(r"\bop=(\w+)", line)
+        what = "rows-changed" if not re.search(r"changed=\[\]", line) else "success"
+        ctx.hits.append({"key": "C08:model-oracle:%s:%s" % (op.group(1) if op else "?", what),
+                         "oracle": "model-oracle: " + name,
+                         "what": "on this management request the observed response / stored rows violate the property's predicate "
+                                 "(a changed row that neither its owner nor an administrator who may act accounts for, or a success "
+                                 "for somebody who may not act on the effective target): cell_violating, proved equivalent to the "
+                                 "conclusions of c08_history / c08_self_or_admin / c08_ok_authorized / c08_rolecert on one request",
+                         "case": line})
+
 def run(ctx):
     ctx.audit("Props.C08", THEOREMS)
     ctx.extract()
@@ -54,6 +76,7 @@ def run(ctx):
         res = ctx.eval_cases(os.path.join(ctx.work, "CasesC08.v"), "c08_cells_vs_model")
         if res is not None:
             corr(ctx, res, "c08_mismatches", "response class and stored rows of %s management requests = Model.Authz.step" % res.get("c08_ncases", "?"), "CasesC08.idx")
+            model_oracle(ctx, res, "c08_violating", "CasesC08.idx")
             corr(ctx, res, "c08_trace_mismatches", "answers of IsAdminUser / isAutomationAdmin (direct calls, /users/, /admin/addUser, role-certificate requests) on %s role-lookup histories (clock, directory answers/failures, production cache) = Model.AdminCache.ranswers" % res.get("c08_ntraces", "?"), "CasesC08Trace.idx")
     if result2 is not None:
         res2 = ctx.eval_cases(os.path.join(ctx.work, "CasesC08Cache.v"), "c08_cache_vs_model")
